@@ -298,6 +298,9 @@ def ix2a(model):
             arg = v.args[0] if isinstance(v, ast.Call) and v.args else None
             if isinstance(arg, ast.List) and arg.elts:
                 r.ok(n, 'buffer over a non-empty list display')
+            elif isinstance(arg, ast.BoolOp) and isinstance(arg.op, ast.Or) \
+                    and isinstance(arg.values[-1], ast.List) and arg.values[-1].elts:
+                r.ok(n, '`collected or [VoidToken]`: never empty', nontrivial=True)
             elif isinstance(arg, ast.Name):
                 blk = _block(n)
                 i = blk.index(n)
